@@ -727,9 +727,11 @@ func init() {
 			"each in a private random order with Gosched/spin jitter, with no synchronisation between barrier and join; every answer is compared with the sequential one and the state fingerprint before/after. " +
 			"Every third case is phase B: 3-6 clients run <= 60 Put/Get/Remove (Add/Contains/Remove, Push/Pop/Peek, ...) with unique values under a caller-side RWMutex (readers RLock, writers Lock); the history is checked exactly in lock (epoch) order and with porcupine against the sequential model (partitioned by key/element). " +
 			"A race report with a library frame during a case is a violation of that case. Every case is non-trivial; distinct = distinct hash of the setup call list and parameters.",
-		Workers:  8,
-		ChildEnv: func(work string) []string { return []string{"GORACE=halt_on_error=0 log_path=" + filepath.Join(work, "race")} },
-		Post:     c18Post,
+		Workers: 8,
+		ChildEnv: func(work string) []string {
+			return []string{"GORACE=halt_on_error=0 log_path=" + filepath.Join(work, "race")}
+		},
+		Post: c18Post,
 		Floors: func(tier string, m map[string]int64) []string {
 			f := &floorCheck{m: m}
 			f.atLeast("phaseA:containers", 500)
